@@ -285,12 +285,42 @@ func txScenario(sc txScript) func() func() []string {
 					problems = append(problems, fmt.Sprintf("saved-count: transaction %d saved %d times, expected %d", t, saved, want))
 				}
 			}
-			if res := porcupine.CheckOperations(txModel, h.ops); !res {
-				var desc []string
+			// The statement is per transaction (a retry poll walks the buckets one by one and is not
+			// a snapshot across transactions), so linearizability is checked for each transaction's
+			// projection of the history: its announcements and deliveries, every clock advance, and
+			// every poll reduced to "was this transaction listed".
+			for t := range txid {
+				var proj []porcupine.Operation
 				for _, o := range h.ops {
-					desc = append(desc, fmt.Sprintf("[%d,%d] c%d %s", o.Call, o.Return, o.ClientId, txModel.DescribeOperation(o.Input, o.Output)))
+					in := o.Input.(txOpIn)
+					out := o.Output.(txOpOut)
+					switch in.Kind {
+					case "announce", "deliver":
+						if in.Tx != t {
+							continue
+						}
+						in.Tx = 0
+					case "poll":
+						listed := false
+						for _, x := range strings.Split(out.Listed, ",") {
+							if x == fmt.Sprint(t) {
+								listed = true
+							}
+						}
+						out = txOpOut{}
+						if listed {
+							out.Listed = "0"
+						}
+					}
+					proj = append(proj, porcupine.Operation{ClientId: o.ClientId, Input: in, Call: o.Call, Output: out, Return: o.Return})
 				}
-				problems = append(problems, "not-linearizable: the call/return history has no linearization against the reference model: "+strings.Join(desc, "; "))
+				if res := porcupine.CheckOperations(txModel, proj); !res {
+					var desc []string
+					for _, o := range proj {
+						desc = append(desc, fmt.Sprintf("[%d,%d] c%d %s", o.Call, o.Return, o.ClientId, txModel.DescribeOperation(o.Input, o.Output)))
+					}
+					problems = append(problems, fmt.Sprintf("not-linearizable: the history of transaction %d has no linearization against the reference model: %s", t, strings.Join(desc, "; ")))
+				}
 			}
 			// outcome label: answers of announcements and polls
 			var outs []string
@@ -306,6 +336,77 @@ func txScenario(sc txScript) func() func() []string {
 			}
 			sort.Strings(outs)
 			label(strings.Join(outs, " "))
+			return problems
+		}
+	}
+}
+
+// sameBucketTxs returns n transactions whose ids share the first byte (one bucket of the manager).
+func sameBucketTxs(n int) []*wire.MsgTx {
+	by := map[byte][]*wire.MsgTx{}
+	for i := 0; i < 4000; i++ {
+		tx := mkTx(1000 + i)
+		b := tx.TxHash()[0]
+		by[b] = append(by[b], tx)
+		if len(by[b]) == n {
+			return by[b]
+		}
+	}
+	panic("no bucket collision found")
+}
+
+// pollCapScenario: several undelivered transactions announced by two peers, the first request
+// timed out, and the second announcer is polled with a small maximum until nothing is returned:
+// every transaction must be offered to that peer exactly once over the polls (a transaction that
+// does not fit under the maximum stays requestable), and never again afterwards.
+func pollCapScenario(nTx, max int, sameBucket bool) func() func() []string {
+	return func() func() []string {
+		txm := bitcoin_reader.NewTxManager(txTimeout)
+		var txs []*wire.MsgTx
+		if sameBucket {
+			txs = sameBucketTxs(nTx)
+		} else {
+			for i := 0; i < nTx; i++ {
+				txs = append(txs, mkTx(2000+i))
+			}
+		}
+		p0, p1 := uuid.New(), uuid.New()
+		var firsts []bool
+		for _, tx := range txs {
+			a, _ := txm.AddTxID(bg, p0, *tx.TxHash())
+			b, _ := txm.AddTxID(bg, p1, *tx.TxHash())
+			firsts = append(firsts, a && !b)
+		}
+		vsched.Advance(txTimeout + time.Second)
+		listed := map[bitcoin.Hash32]int{}
+		var sizes []int
+		for round := 0; round < nTx+2; round++ {
+			l, _ := txm.GetTxRequests(bg, p1, max)
+			sizes = append(sizes, len(l))
+			for _, id := range l {
+				listed[id]++
+			}
+			if len(l) == 0 {
+				break
+			}
+			// requests for the listed transactions are now outstanding: they may not be listed again
+			// before the timeout, but the ones that did not fit must still come
+		}
+		// let every further poll be after another timeout
+		return func() []string {
+			var problems []string
+			for i, ok := range firsts {
+				if !ok {
+					problems = append(problems, fmt.Sprintf("announce: transaction %d: first announcer not told to request / second told to", i))
+				}
+			}
+			for i, tx := range txs {
+				if n := listed[*tx.TxHash()]; n != 1 {
+					problems = append(problems, fmt.Sprintf("retry-offer-count: transaction %d of %d was offered to the second announcer %d times over the polls (max %d per poll, poll sizes %v), expected exactly once", i, nTx, n, max, sizes))
+					break
+				}
+			}
+			label(fmt.Sprintf("polls=%v", sizes))
 			return problems
 		}
 	}
@@ -339,6 +440,16 @@ func c06Scenarios(thorough bool) []*scenario {
 	add(txScript{peers: [][]string{{"A0"}, {"A0"}}, poll: []int{1}, adv: true, clockThread: true})
 	add(txScript{peers: [][]string{{"A0"}, {"A0", "D0"}}, poll: []int{1}, adv: true})
 	add(txScript{peers: [][]string{{"A0", "D0"}, {"A1", "D1"}}})
+	// the per-poll maximum (sequential): 2-5 transactions, in one bucket and spread over buckets
+	for _, n := range []int{2, 3, 5} {
+		for _, max := range []int{1, 2, 3} {
+			for _, same := range []bool{true, false} {
+				n, max, same := n, max, same
+				r = append(r, &scenario{name: fmt.Sprintf("txmanager/poll-cap/%d-txs-max-%d-same-bucket-%t", n, max, same), bounds: []int{0},
+					body: pollCapScenario(n, max, same), steps: 50000})
+			}
+		}
+	}
 	if thorough {
 		add(txScript{peers: [][]string{{"A0", "A0"}, {"A0"}}, poll: []int{1, 1}, adv: true})
 		add(txScript{peers: [][]string{{"A0", "A1"}, {"A1", "A0"}}, poll: []int{0, 1}, adv: true})
